@@ -32,6 +32,9 @@ Definition version_str (v11 : bool) : str := [72; 84; 84; 80; 47; 49; 46; if v11
 Definition status_line (r : creq) : str :=
   map upper (c_method r) ++ [32] ++ c_target r ++ [32] ++ version_str (c_v11 r).
 
+Definition body_bytes_of (b : cbody) : bytes :=
+  match b with BNone => [] | BBytes d => d | BPieces ps => concat ps end.
+
 (* _should_write is false for an empty body (size 0): set_eof; otherwise write_with_length + write_eof *)
 Definition body_ops (b : cbody) : list wop :=
   match b with
@@ -41,15 +44,47 @@ Definition body_ops (b : cbody) : list wop :=
   | BPieces ps => map WWrite ps ++ [WEof []]
   end.
 
+(* the body is chunk-encoded iff self.chunked is true AND the head announces it (Transfer-Encoding in self.headers) *)
+Definition req_chunking (r : creq) : bool :=
+  writer_chunking_enabled (c_chunked r) (existsb (fun kv => ieqb (fst kv) [84; 114; 97; 110; 115; 102; 101; 114; 45; 69; 110; 99; 111; 100; 105; 110; 103]) (c_headers r)).
+
+(* ClientRequestBase._get_content_length: None = ValueError (not ASCII digits, or more digits than int() converts) *)
+Fixpoint first_value (k : str) (hs : list (str * str)) : option str :=
+  match hs with
+  | [] => None
+  | (k', v') :: t => if ieqb k' k then Some v' else first_value k t
+  end.
+Definition header_content_length (r : creq) : option (option N) :=
+  match first_value [67; 111; 110; 116; 101; 110; 116; 45; 76; 101; 110; 103; 116; 104] (c_headers r) with
+  | None => Some None
+  | Some v => if nonempty v && forallb dec_digit v && (lenN v <=? int_max_str_digits) then Some (Some (parse_dec v)) else None
+  end.
+
+(* _should_write (no Expect, transport not paused): body.size != 0 *)
+Definition should_write (b : cbody) : bool :=
+  match b with BNone => false | BBytes [] => false | _ => true end.
+
+(* _send: writer.length = content_length before _write_bytes (if the code does that) *)
+Definition client_ops_len (r : creq) (cl : option N) (head : bytes) : list wop :=
+  (if req_chunking r then [WEnableChunking] else []) ++ WHeaders head ::
+  (if should_write (c_body r) && client_counts_declared_length then [WSetLength cl] else []) ++ body_ops (c_body r).
 Definition client_ops (r : creq) (head : bytes) : list wop :=
-  (if writer_chunking_enabled (c_chunked r) then [WEnableChunking] else []) ++ WHeaders head :: body_ops (c_body r).
+  client_ops_len r (match header_content_length r with Some cl => cl | None => None end) head.
+
+(* _write_bytes: what is still missing of the declared Content-Length after the body source is exhausted; > 0 means
+   ClientPayloadError: no write_eof, the request fails, the connection is not reused *)
+Definition body_shortfall (r : creq) : N :=
+  match header_content_length r with
+  | Some (Some n) => if client_counts_declared_length && should_write (c_body r) then n - lenN (body_bytes_of (c_body r)) else 0
+  | _ => 0
+  end.
 
 (* None = ValueError before anything is written (bad method, forbidden character in the head) *)
 Definition client_serialize (r : creq) : option bytes :=
   if method_ok (c_method r) then
-    match serialize_headers (status_line r) (c_headers r) with
-    | Some head => Some (snd (wrun winit (client_ops r head)))
-    | None => None
+    match serialize_headers (status_line r) (c_headers r), header_content_length r with
+    | Some head, Some _ => Some (snd (wrun winit (client_ops r head)))
+    | _, _ => None
     end
   else None.
 
@@ -58,8 +93,9 @@ Definition client_serialize (r : creq) : option bytes :=
 Definition body_pieces (b : cbody) : list bytes :=
   match b with BPieces ps => ps | BBytes d => [d] | BNone => [] end.
 Definition aborted_ops (r : creq) (head : bytes) (k : nat) : list wop :=
-  (if writer_chunking_enabled (c_chunked r) then [WEnableChunking] else []) ++
-  WHeaders head :: map WWrite (firstn k (body_pieces (c_body r))) ++
+  (if req_chunking r then [WEnableChunking] else []) ++
+  WHeaders head :: (if client_counts_declared_length then [WSetLength None] else []) ++
+  map WWrite (firstn k (body_pieces (c_body r))) ++
   (if write_eof_only_after_success then [] else [WEof []]).
 Definition client_serialize_aborted (r : creq) (k : nat) : option bytes :=
   if method_ok (c_method r) then
@@ -208,7 +244,7 @@ Fixpoint offsets_from (base : N) (ds : list bytes) : list N :=
 
 (* what the payload stream of that message receives *)
 Definition expected_rec (r : creq) : mrec :=
-  let chunked := writer_chunking_enabled (c_chunked r) in
+  let chunked := req_chunking r in
   let has_body := chunked || nonempty (body_bytes (c_body r)) in
   mkR (expected_msg r) has_body (body_bytes (c_body r))
       (if chunked then offsets_from 0 (nonempty_pieces (c_body r)) else [])
@@ -230,7 +266,7 @@ Definition dec_numeral (v : bytes) (n : N) : bool :=
 
 Definition framing_ok (r : creq) : bool :=
   let hs := wire_headers r in
-  if writer_chunking_enabled (c_chunked r) then
+  if req_chunking r then
     match get_header h_transfer_encoding hs with
     | Some te => list_eqb te t_chunked && negb (has_header h_content_length hs)
     | None => false
@@ -242,6 +278,14 @@ Definition framing_ok (r : creq) : bool :=
     | b, Some v => dec_numeral v (lenN (body_bytes b))
     | b, None => negb (nonempty (body_bytes b))
     end.
+
+(* the Content-Length the client reads back from its own headers agrees with the body (writer.length) *)
+Definition length_ok (r : creq) : bool :=
+  match header_content_length r with
+  | None => false
+  | Some None => req_chunking r || negb (should_write (c_body r))
+  | Some (Some n) => negb (req_chunking r) && (n =? lenN (body_bytes (c_body r)))
+  end.
 
 Definition limits_ok (lim : limits) (r : creq) : bool :=
   (lenN (u8 (status_line r)) + 1 <=? max_line lim) &&
@@ -257,7 +301,7 @@ Definition valid (lim : limits) (r : creq) : bool :=
   no_dup_singletons [] (map fst (c_headers r)) &&
   negb (has_header h_upgrade (wire_headers r)) && negb (has_header h_sec_websocket_key1 (wire_headers r)) &&
   (negb (c_v11 r) || has_header h_host (wire_headers r)) &&
-  framing_ok r && limits_ok lim r.
+  framing_ok r && length_ok r && limits_ok lim r.
 
 (* a segmentation of w *)
 Definition segmentation (segs : list bytes) (w : bytes) : Prop := concat segs = w /\ segs <> [].
